@@ -1,0 +1,20 @@
+//go:build verif
+
+package verifhook
+
+import (
+	"github.com/verily-src/fhirpath-go/internal/fhir"
+	"github.com/verily-src/fhirpath-go/internal/fhirconv"
+)
+
+// FHIR primitive parse / format helpers.
+var (
+	ParseDate        = fhir.ParseDate
+	ParseDateTime    = fhir.ParseDateTime
+	ParseInstant     = fhir.ParseInstant
+	ParseTime        = fhir.ParseTime
+	DateToString     = fhirconv.DateToString
+	DateTimeToString = fhirconv.DateTimeToString
+	InstantToString  = fhirconv.InstantToString
+	TimeToString     = fhirconv.TimeToString
+)
